@@ -60,13 +60,20 @@ def py_eq(x, y):
     return x == y
 
 
-def reproduces(x, y, may_be_default=None):
+def reproduces(x, y, may_be_default=None, peers=None):
     """`y` (from the expansion) reproduces `x` (from the input): equal, and not narrowed to a
     smaller numeric type (bool < int < float).  At a position of a sparse column whose input
-    equals the default the default itself (whatever its numeric type) is accepted."""
+    equals the default the default itself (whatever its numeric type) is accepted.  In a sequence
+    mixing classes (`peers`: all its elements) an element may come back in the class of another
+    element of the sequence that is equal to it (the representative the encoding kept) or a class
+    above that one: never in a class narrower than every element of the input equal to it."""
     if not py_eq(x, y):
         return False
     if family(x) == "num" and rank(y) < rank(x):
+        if peers is not None and any(family(p) == "num" and rank(p) <= rank(y) and py_eq(p, x) for p in peers):
+            # (the representative's class, or a wider one it was promoted to with the other stored values:
+            # [True, 1.0, 0] is stored as the runs [True, 0] -> int64 [1, 0]: the 1.0 comes back as the integer 1)
+            return True
         if may_be_default is not None and family(may_be_default[0]) == "num" and py_eq(x, may_be_default[0]) \
                 and not is_nan(x) and type(y) is type(may_be_default[0]):
             return True
@@ -214,7 +221,65 @@ def spec_values(spec):
 def values_of(case):
     if "spec" in case:
         return spec_values(case["spec"])
+    if "mix" in case:
+        return [p[0] for p in case["mix"]]
     return case["values"]
+
+
+# --------------------------------------------------------------------------- sequences mixing classes
+#
+# `"mix": [[value, class], ...]` in place of `"values"`: a sequence whose elements are of *different classes*
+# -- Python bool / int / float ("py": the class of the value as written) and numpy scalars of a named dtype --
+# with values that may compare equal across the classes (2 == 2.0 == numpy.int64(2) == numpy.float32(2),
+# True == 1 == 1.0, 0 == False == 0.0).  Every encoding brings such a sequence to one numpy dtype somewhere
+# (numpy.array over the list, or over the run values): the property's clauses about the *stored form* speak
+# of the values as stored (after that unification); the round trip is judged at the value level (Python
+# equality), and an element may come back in the class of *another input element that is equal to it*
+# (every encoding keeps one representative of equal values: the first of a run, the dictionary entry, the
+# default) or in a class above the representative's (the stored values are promoted together) -- never in a
+# class narrower than every input element equal to it.
+# Values are restricted to those every class of the mixture holds exactly (integers within 2**53 next to
+# floats, within 2**24 next to float32: beyond, numpy's promotion rounds -- the class of C09-K01).
+
+MIX_CLASSES = ("py", "bool", "int8", "int16", "int32", "int64", "uint8", "float32", "float64")
+MIX_CONTAINERS = ("list", "tuple", "array", "array:object")
+MIX_FUNCS = ("id", "double", "halve")  # value-level functions (2 * 2 == 2 * 2.0); `tostr` / `invert` tell the classes apart
+
+
+def mix_ok(mix):
+    import numpy
+
+    if not isinstance(mix, list):
+        return False
+    for p in mix:
+        if not (isinstance(p, list) and len(p) == 2 and p[1] in MIX_CLASSES and scalar_ok(p[0]) and not isinstance(p[0], str)):
+            return False
+        v, k = p
+        if k == "py":
+            continue
+        if v is None:
+            return False
+        if k == "bool":
+            if type(v) is not bool:
+                return False
+        elif k.startswith(("int", "uint")):
+            if type(v) is not int or not numpy.iinfo(k).min <= v <= numpy.iinfo(k).max:
+                return False
+        elif type(v) is not float or not _holds_float(v, k):
+            return False
+    nums = [p for p in mix if p[0] is not None]
+    floaty = any(type(v) is float for v, _ in nums)
+    f32 = any(k == "float32" for _, k in nums)
+    for v, k in nums:
+        if type(v) is int and floaty and abs(v) > 2**53:
+            return False
+        if f32 and not is_nan(v) and (abs(v) > 2**24 and abs(v) != float("inf") or not _holds_float(float(v), "float32")):
+            return False
+    return True
+
+
+def mix_kinds(case):
+    return sorted({("numpy." + k if k != "py" else type(v).__name__) for v, k in case["mix"]})
 
 
 # how the input sequence is handed to the column class: the classes accept any sequence
@@ -477,7 +542,7 @@ def ops_valid(case, xs):
         return False
     enc = case["enc"]
     cur = [case["value"]] if enc in ("const", "func") else list(xs)  # (applicability depends on the kinds only)
-    allowed = narrow_funcs(case.get("container", "list"))
+    allowed = narrow_funcs(case.get("container", "list")) if "mix" not in case else MIX_FUNCS
     for op in ops:
         if not isinstance(op, str):
             return False
@@ -502,7 +567,8 @@ def ops_valid(case, xs):
             if enc == "func" or f not in FUNCS + DTYPE_FUNCS or f not in allowed or not f_applicable(f, cur):
                 return False
             cur = [py_f(f, x) for x in cur]
-            allowed = FUNCS + DTYPE_FUNCS  # the mapped array has the dtype numpy gave the result
+            if "mix" not in case:
+                allowed = FUNCS + DTYPE_FUNCS  # the mapped array has the dtype numpy gave the result
             continue
         return False
     return True
@@ -511,6 +577,14 @@ def ops_valid(case, xs):
 def has_model(case):
     if case.get("f") in DTYPE_FUNCS or "ops" in case or "default_np" in case:
         return False
+    if "mix" in case:
+        # a list mixing classes: the model brings the elements to numpy's common dtype where the class does
+        # (`Enc.unify`: before the encoding for dictionary / sparse columns and for array input, over the run
+        # values for a run-length column over a list or an object array)
+        if case.get("f") or len(case["mix"]) > MODEL_MAX_LEN:
+            return False
+        cont = case.get("container", "list")
+        return cont in ("list", "tuple", "array") or (cont == "array:object" and case["enc"] == "rle")
     if case.get("container", "list") not in ("list", "tuple", "array"):
         return False
     if isinstance(case.get("value"), bytes):
@@ -549,7 +623,11 @@ def build_input(case):
     in for equality)."""
     import numpy
 
-    vs = [fresh(v) for v in values_of(case)]
+    if "mix" in case:
+        # every element in its own class: a fresh Python object, or a numpy scalar of the named dtype
+        vs = [fresh(v) if k == "py" else numpy.dtype(k).type(v) for v, k in case["mix"]]
+    else:
+        vs = [fresh(v) for v in values_of(case)]
     cont = case.get("container", "list")
     if cont == "list":
         return vs
@@ -756,6 +834,15 @@ def run_impl(case):
 
 def model_line(case):
     enc, f = case["enc"], case.get("f")
+    if "mix" in case:
+        # `_mix`: the class sees the elements in their own classes (a list, an object array); `_cast`: numpy.array
+        # over the list has brought them to one dtype before the class sees them
+        early = case.get("container", "list") == "array"
+        if enc == "rle":
+            return "C09 rle_%s " % ("cast" if early else "mix") + wire.line(list(values_of(case)))
+        if enc == "dict":
+            return "C09 dict_cast " + wire.line(list(values_of(case)))
+        return "C09 sparse_cast " + wire.line(list(values_of(case)), case["default"])
     if enc in ("rle", "dict"):
         return "C09 %s%s " % (enc, "_map" if f else "") + wire.line(*([f] if f else []), list(values_of(case)))
     if enc == "sparse":
@@ -829,13 +916,14 @@ def original(case):
     return list(values_of(case))
 
 
-def seq_reproduces(xs, ys, default=None):
+def seq_reproduces(xs, ys, default=None, mixed=False):
     """None, or 'generic clause :: detail'."""
+    peers = list(xs) if mixed else None
     if not isinstance(ys, list) or len(xs) != len(ys):
         return "the expansion has another length than the input :: expansion has length %s, the input %d" % (
             len(ys) if isinstance(ys, list) else "?", len(xs))
     for i, (x, y) in enumerate(zip(xs, ys)):
-        if not reproduces(x, y, default):
+        if not reproduces(x, y, default, peers):
             return "an element of the expansion differs from the input (changed, truncated or narrowed) :: element %d of the expansion is %r (%s), the input has %r (%s)" % (
                 i, y, type(y).__name__, x, type(x).__name__)
     return None
@@ -893,7 +981,8 @@ def stored_form(case, out):
             return "stored form: run lengths do not sum to the input length :: sum %d, input %d" % (sum(ls), len(xs))
         for i in range(len(vs) - 1):
             if vs[i] == vs[i + 1]:
-                return "stored form: adjacent runs hold the same value"
+                # (judged on the values *as stored*: the run values after numpy brought them to one dtype)
+                return "stored form: adjacent runs hold the same value :: stored values %r, run lengths %r" % (vs[:8], ls[:8])
     elif enc == "dict" and "codes" in out:
         vs, cs = out["values"], out["codes"]
         seen = set()
@@ -913,7 +1002,7 @@ def stored_form(case, out):
             # codes are positions 0..len(values)-1; a negative code would index from the end
             if not (isinstance(c, int) and 0 <= c <= len(vs) - 1):
                 return "stored form: a code does not index the dictionary :: code %r at element %d, %d entries" % (c, i, len(vs))
-            if not reproduces(xs[i], vs[c]):
+            if not reproduces(xs[i], vs[c], None, list(xs) if "mix" in case else None):
                 return "stored form: a code indexes another entry than its element"
     elif enc == "sparse" and "indices" in out:
         vs, ix, dv = out["values"], out["indices"], case["default"]
@@ -947,7 +1036,7 @@ def oracle(case, out):
     d = [case["default"]] if enc == "sparse" else None
     for k, ((prefix, want), got) in enumerate(zip(trace, mats)):
         if want is not None:
-            r = seq_reproduces(want, got["mat"], d)
+            r = seq_reproduces(want, got["mat"], d, "mix" in case)
             if r:
                 return prefix + r
         if k == 0:
@@ -987,7 +1076,7 @@ def homogeneous(values):
 
 
 KEYS = {"enc", "values", "spec", "default", "value", "length", "f", "ops", "container", "default_np", "omit_default", "type", "cfg",
-        "type_name", "kw", "via"}
+        "type_name", "kw", "via", "mix"}
 
 
 def type_ok(c, vs):
@@ -1013,7 +1102,7 @@ def valid_case(c):
     if c["enc"] in ("const", "func"):
         if not (isinstance(c.get("length"), int) and not isinstance(c.get("length"), bool) and 0 <= c["length"] <= 200000):
             return False
-        if "value" not in c or set(c) & {"values", "spec", "default", "container", "default_np", "omit_default"}:
+        if "value" not in c or set(c) & {"values", "spec", "default", "container", "default_np", "omit_default", "mix"}:
             return False
         if isinstance(c["value"], bytes):
             # bytes only as the value of a column declared BLOB (numpy's bytes dtype drops trailing NULs)
@@ -1039,9 +1128,19 @@ def valid_case(c):
                 or isinstance(sp.get("n"), bool) or not (1 <= sp["n"] <= 200000) or set(sp) != {"shape", "kind", "n"}:
             return False
         vs = spec_values(sp)
+    elif "mix" in c:
+        # a sequence mixing classes: no declared type, value-level functions only
+        if "values" in c or set(c) & {"type", "type_name", "kw", "via"} or not mix_ok(c["mix"]) \
+                or c.get("container", "list") not in MIX_CONTAINERS:
+            return False
+        if f is not None and f not in MIX_FUNCS:
+            return False
+        if any(isinstance(o, str) and o.startswith(("map:", "imap:")) and o[4:] not in MIX_FUNCS for o in c.get("ops", []) or []):
+            return False
+        vs = values_of(c)
     else:
         vs = c.get("values")
-    if not isinstance(vs, list) or not all(scalar_ok(v) for v in vs) or not homogeneous(vs):
+    if not isinstance(vs, list) or not all(scalar_ok(v) for v in vs) or not ("mix" in c or homogeneous(vs)):
         return False
     cont = c.get("container", "list")
     if cont not in CONTAINERS or not container_ok(cont, vs):
@@ -1797,6 +1896,14 @@ def evaluate(ctx, cases):
             ctx.hit("kw:" + k_)
         ks = sorted({type(v).__name__ for v in xs}) or ["empty"]
         ctx.hit("kind:" + "+".join(ks))
+        if "mix" in c:
+            ctx.hit("mix:" + c["enc"] + ":" + c.get("container", "list"))
+            for k_ in mix_kinds(c):
+                ctx.hit("mix:class:" + k_)
+            ctx.hit("mix:distinct-classes:%d" % len(mix_kinds(c)))
+            eqn = sum(1 for (a, ka), (b, kb) in zip(c["mix"], c["mix"][1:])
+                      if py_eq(a, b) and (ka != kb or type(a) is not type(b)))
+            ctx.hit("mix:equal-neighbours-of-different-class:%s" % (eqn if eqn < 3 else "3+"))
         if c["enc"] == "sparse":
             ctx.hit("default:" + (repr(c["default"]) if c["default"] in (None, 0, "") and not isinstance(c["default"], (bool, float))
                                   else type(c["default"]).__name__))
@@ -2105,6 +2212,117 @@ def unusual_text_cases(nmax):
         yield {"enc": "const", "value": v, "length": 3, "type_name": "VARCHAR[%d]" % len(v)}
 
 
+# sequences mixing classes whose values compare equal (see "sequences mixing classes" above)
+MIX_ALPHABETS = [
+    ("int/float", ([2, "py"], [2.0, "py"], [3.5, "py"])),
+    ("bool/int", ([True, "py"], [1, "py"], [0, "py"], [False, "py"])),
+    ("bool/int/float", ([1, "py"], [1.0, "py"], [True, "py"])),
+    ("zeros", ([0, "py"], [0.0, "py"], [False, "py"])),
+    ("numpy-int", ([2, "py"], [2, "int64"], [2, "int8"], [3, "py"])),
+    ("numpy-float", ([2.0, "py"], [2.0, "float32"], [2, "py"], [1.5, "float32"])),
+    ("numpy-bool", ([True, "py"], [True, "bool"], [1, "int64"], [1.0, "float64"])),
+    ("bool/float next to int", ([True, "py"], [1.0, "py"], [0, "py"], [2, "py"])),
+    ("+null", ([1, "py"], [1.0, "py"], [None, "py"])),
+    ("2**53", ([2**53, "py"], [2.0**53, "py"], [2**53 - 1, "py"])),
+    ("nan", ([NAN, "py"], [1, "py"], [1.0, "py"])),
+]
+
+
+def mix_defaults(alpha):
+    """Sparse defaults for a mixture: null, every Python value of the alphabet (each equal to elements of other
+    classes), one numpy-typed default."""
+    out, seen = [{"default": None}], set()
+    for v, k in alpha:
+        key = (type(v).__name__, repr(v))
+        if v is not None and key not in seen:
+            seen.add(key)
+            out.append({"default": v})
+    for v, k in alpha:
+        if k != "py" and default_np_ok(k, v):
+            out.append({"default": v, "default_np": k})
+            break
+    return out
+
+
+def mixed_cases(nmax, nmax_full):
+    """Every sequence of length 0..nmax over each mixture alphabet through RLE, dictionary and sparse columns, handed
+    over as a list, as an object array (the elements keep their classes) and as a typed array (numpy.array has
+    brought them to one dtype before the class sees them); to length `nmax_full` also mapped, used twice, copied."""
+    for name, alpha in MIX_ALPHABETS:
+        for n in range(nmax + 1):
+            for seq in itertools.product(alpha, repeat=n):
+                mix = [list(p) for p in seq]
+                vs = [p[0] for p in mix]
+                for cont in ("list", "array:object", "array") if n else ("list",):
+                    extra = {} if cont == "list" else {"container": cont}
+                    yield dict({"enc": "rle", "mix": mix}, **extra)
+                    if None not in vs or n < 2:
+                        yield dict({"enc": "dict", "mix": mix}, **extra)
+                    for d in mix_defaults(alpha):
+                        yield dict({"enc": "sparse", "mix": mix}, **dict(extra, **d))
+                    if n <= nmax_full:
+                        for f in ("double", "halve"):
+                            if f_applicable(f, vs):
+                                yield dict({"enc": "rle", "mix": mix, "f": f}, **extra)
+                                if None not in vs or n < 2:
+                                    yield dict({"enc": "dict", "mix": mix, "f": f}, **extra)
+                        for ops in (["mat", "mat"], ["copy", "mat"], ["mat", "pickle", "mat"], ["decoy", "mat", "flat", "mat"]):
+                            yield dict({"enc": "rle", "mix": mix, "ops": ops}, **extra)
+                if n <= nmax_full:
+                    yield {"enc": "rle", "mix": mix, "container": "tuple"}
+
+
+def random_mix(rng):
+    """A random sequence over a pool of values each present in several classes, with sticky repeats (so equal
+    neighbours of different classes are frequent)."""
+    base = rng.choice([[0, 1, 2], [1, 2, 3], [2, 7, 100], [0, 1], [2**24, 2**24 - 1, 5], [2**53, 1, 2**53 - 1]])
+    with_f32 = max(base) <= 2**24 and rng.random() < 0.4
+    classes = [("py", int), ("py", float)] + ([("int64", int), ("int32", int)] if rng.random() < 0.5 else []) \
+        + ([("float32", float)] if with_f32 else []) + ([("float64", float)] if rng.random() < 0.3 else [])
+    pool = []
+    for v in base:
+        for k, t in classes:
+            pool.append([t(v), k])
+        if v in (0, 1) and rng.random() < 0.5:
+            pool.append([bool(v), "py"])
+    if rng.random() < 0.3:
+        pool.append([rng.choice([1.5, 2.5, NAN]), "py"])
+    with_null = rng.random() < 0.15
+    n = rng.randint(0, 12) if rng.random() < 0.7 else rng.choice([20, 40, 100])
+    mix, stick = [], rng.choice([0.0, 0.3, 0.6])
+    for _ in range(n):
+        if mix and rng.random() < stick:
+            # the same value in another (or the same) class
+            v = mix[-1][0]
+            same = [p for p in pool if p[0] is not None and v is not None and py_eq(p[0], v)]
+            mix.append(list(rng.choice(same or pool)))
+        elif with_null and rng.random() < 0.2:
+            mix.append([None, "py"])
+        else:
+            mix.append(list(rng.choice(pool)))
+    enc = rng.choice(["rle", "rle", "dict", "sparse", "sparse"])
+    if enc == "dict" and any(p[0] is None for p in mix) and len(mix) >= 2:
+        enc = "rle"
+    c = {"enc": enc, "mix": mix}
+    cont = rng.choice(MIX_CONTAINERS)
+    if cont != "list":
+        c["container"] = cont
+    if enc == "sparse":
+        c["default"] = rng.choice([None, 0, 1, 2, 1.0, 2.0, True, 0.0] + [p[0] for p in mix[:3]])
+    r = rng.random()
+    if r < 0.2:
+        f = rng.choice(MIX_FUNCS)
+        if f_applicable(f, values_of(c)):
+            c["f"] = f
+    elif r < 0.3:
+        c["ops"] = rng.choice([["mat", "mat"], ["copy", "mat"], ["mat", "map:double", "mat"], ["schema", "mat"]])
+    if not valid_case(c):
+        c.pop("f", None), c.pop("ops", None)
+    if not valid_case(c):
+        return {"enc": "rle", "mix": [[2.0, "py"], [2, "py"]]}
+    return c
+
+
 def gen_scalar(rng, kind):
     if kind == "int":
         r = rng.random()
@@ -2374,6 +2592,12 @@ CORPUS = [
     {"enc": "sparse", "values": [True, False], "default": 2},
     # runs of infinities
     {"enc": "rle", "values": [1.5, float("inf"), float("inf"), float("-inf"), float("-inf"), 2.0]},
+    # equal neighbours of different classes (the run values are brought to one dtype when they are stored)
+    {"enc": "rle", "mix": [[2.0, "py"], [2.0, "py"], [2, "py"], [2, "py"], [3.5, "py"]]},
+    {"enc": "rle", "mix": [[0, "py"], [0, "py"], [False, "py"], [1, "py"], [True, "py"], [True, "py"]]},
+    {"enc": "rle", "mix": [[2, "int64"], [2, "py"], [2.0, "float32"], [3, "int8"]], "container": "array:object"},
+    {"enc": "dict", "mix": [[1, "py"], [True, "py"], [1.0, "py"], [0, "py"]]},
+    {"enc": "sparse", "mix": [[0, "py"], [0.0, "py"], [False, "py"], [1, "py"]], "default": 0},
     # C09-K03 (open): text ending in NUL
     {"enc": "const", "value": "a\x00", "length": 2},
     {"enc": "rle", "values": ["a\x00", "b", "b"]},
@@ -2418,7 +2642,11 @@ def run(ctx):
              "non-trivial = at least two elements; distinct by canonical JSON of the case")
     ctx.note("assumptions", [
         "element kinds: one kind per sequence (integers within int64, floats without -0.0, text, booleans), optionally with nulls; "
-        "mixed-kind lists are converted by numpy.array before any encoding sees them and are outside the property's quantifier",
+        "or a sequence mixing Python / numpy numeric classes whose values every class of the mixture holds exactly (2 / 2.0 / "
+        "numpy.int64(2) / numpy.float32(2), True / 1 / 1.0; integers within 2**53 next to floats, 2**24 next to float32): there the "
+        "stored-form clauses are judged on the values as stored (after numpy brought them to one dtype), the round trip at the value "
+        "level, and an element may come back in the class of an equal element of the input or a wider one; numbers mixed with text are "
+        "converted to text by numpy.array and are outside the property's quantifier",
         "the dictionary encoding does not support nulls (numpy.unique sorts with '<'): a TypeError there is not a violation",
         "map commutation for sparse columns is required of functions that fix the default (DESIGN.md section 7, readings)",
         "a sparse position whose input equals the default may come back as the default itself (0.0 stored among objects with default 0 -> 0)",
@@ -2437,6 +2665,7 @@ def run(ctx):
         scope("exhaustive-length-%d" % n, exhaustive_level(n, n <= nmax_map))
     scope("sequences-of-uses", sequence_cases(nseq))
     scope("narrow-containers", narrow_cases(nnarrow))
+    scope("mixed-classes", mixed_cases(*ctx.scale((3, 2), (4, 3))))
     scope("extreme-floats", extreme_float_cases(ctx.scale(3, 4)))
     scope("unusual-text", unusual_text_cases(ctx.scale(2, 3)))
     for n in range(core_n + 1, nmax + 1):
@@ -2473,6 +2702,12 @@ def run(ctx):
              "mutated in place; 70 / 130 distinct configurations followed by their float look-alikes; every expansion judged "
              "against this column's binding on this column's configuration at that moment (same type, same sign of zero)"
              % (list(BINDINGS), [list(c) for c in EQUAL_ARGS]))
+    ctx.note("mixed_scope", "every sequence of length 0..%d over each of %d alphabets mixing classes whose values compare equal "
+             "(%s; numpy scalars by dtype name) through RLE, dictionary and sparse columns (defaults: null, every value of the alphabet, "
+             "a numpy-typed one), handed over as list / object array / typed array, to length %d also mapped by value-level functions, "
+             "expanded twice, copied, pickled; the stored-form clauses are judged on the values as stored (after numpy brought them to "
+             "one dtype); an element never comes back in a class narrower than every element of the input equal to it"
+             % (ctx.scale(3, 4), len(MIX_ALPHABETS), "; ".join("%s: %r" % (n, [tuple(p) for p in a]) for n, a in MIX_ALPHABETS), ctx.scale(2, 3)))
     ctx.note("unusual_scope", "every sequence of length 0..%d over %r (subnormal next to zero, neighbouring doubles, both infinities, "
              "1e308) and of length 0..%d over %r (trailing / leading blank, case, composed vs combining accent, inner NUL, sharp s, "
              "CJK, astral, tab, newline) through RLE, dictionary and sparse columns; hash-colliding integers %r likewise; text ending "
@@ -2481,7 +2716,8 @@ def run(ctx):
     done = 0
     while done < n_random and (ctx.time_left() > 4 or ctx.replaying):
         k = min(500, n_random - done)
-        evaluate(ctx, [random_family(ctx.rng) if i % 16 == 5 else random_case(ctx, big=(i % 97 == 0)) for i in range(k)])
+        evaluate(ctx, [random_family(ctx.rng) if i % 16 == 5 else random_mix(ctx.rng) if i % 16 == 11
+                       else random_case(ctx, big=(i % 97 == 0)) for i in range(k)])
         done += k
     if done < n_random:
         cut.append({"scope": "random", "cases_evaluated_before_the_cut": done, "planned": n_random})
@@ -2495,7 +2731,8 @@ def intensify(ctx):
     for _ in range(10):
         if ctx.time_left() < 5:
             break
-        evaluate(ctx, [random_family(ctx.rng) if i % 16 == 5 else random_case(ctx) for i in range(2000)])
+        evaluate(ctx, [random_family(ctx.rng) if i % 16 == 5 else random_mix(ctx.rng) if i % 16 == 11 else random_case(ctx)
+                       for i in range(2000)])
     flush_pending(ctx)
 
 
@@ -2511,7 +2748,8 @@ def is_dict_object_array_nan(case, failure=None):
     merged.  Only the uniqueness clause is suppressed (the expansion must still be exact)."""
     if case.get("enc") != "dict" or case.get("container") != "array:object":
         return False
-    if not isinstance(case.get("values"), list) or not any(is_nan(v) for v in case["values"]):
+    vals = values_of(case) if "mix" in case else case.get("values")
+    if not isinstance(vals, list) or not any(is_nan(v) for v in vals):
         return False
     if failure is None:
         return True
